@@ -4,7 +4,7 @@ CONSTANTS
   NE = 3
   AbsBug = "none"
   SigBug = "none"
+  NB = 1
 VIEW SView
-INVARIANTS TypeOK LawUnregisterOnce LawCalledAreLive LawCallExplained
-CONSTRAINT SEmit
+INVARIANTS TypeOK LawUnregisterOnce LawOwnership LawCalledAreLive LawCallExplained
 CHECK_DEADLOCK FALSE
